@@ -4,6 +4,7 @@ package main
 
 import (
 	"context"
+	"errors"
 	"crypto/sha256"
 	"encoding/hex"
 	"encoding/json"
@@ -52,7 +53,7 @@ type C11Policy struct {
 }
 
 type C11Fault struct {
-	Kind string `json:"kind"` // delete-err | list-err | crash-fs | crash-step
+	Kind string `json:"kind"` // delete-err | list-err | crash-fs | crash-step | meta-err | meta-err-rest
 	K    int    `json:"k"`
 }
 
@@ -182,6 +183,13 @@ func genC11(r *simrt.Rand, tier string) any {
 				op.Fault = &C11Fault{Kind: "crash-fs", K: r.Intn(30)}
 			case x < 30:
 				op.Fault = &C11Fault{Kind: "crash-step", K: 1 + r.Intn(80)}
+			case x < 38:
+				// the K-th per-file metadata read fails (transient engine or
+				// object-store error) ...
+				op.Fault = &C11Fault{Kind: "meta-err", K: r.Intn(5)}
+			case x < 44:
+				// ... or it and every later one (deadline or cancellation mid-scan)
+				op.Fault = &C11Fault{Kind: "meta-err-rest", K: r.Intn(5)}
 			}
 		}
 		p.Ops = append(p.Ops, op)
@@ -214,6 +222,8 @@ type c11world struct {
 	r0   time.Time
 	pd   *pod
 	rh   *api.RetentionHandler
+	// files whose metadata read the injector failed during the run being judged
+	metaFailed map[string]bool
 	app  *fiber.App
 	hnd  fasthttp.RequestHandler
 	ids  []int64 // policy ids
@@ -576,6 +586,15 @@ func (w *c11world) checkCutoffEcho(resp execResp, cutoff time.Time) {
 	}
 }
 
+func (w *c11world) failedMeta(rel string) bool {
+	for p := range w.metaFailed {
+		if p = filepath.ToSlash(p); p == rel || strings.HasSuffix(p, "/"+rel) {
+			return true
+		}
+	}
+	return false
+}
+
 // judgeReal applies the property to one real execution.
 func (w *c11world) judgeReal(pol C11Policy, before, after map[string][]rowAt, cutoff time.Time, success bool, fault string, what string) {
 	out := w.out
@@ -631,6 +650,11 @@ func (w *c11world) judgeReal(pol C11Policy, before, after map[string][]rowAt, cu
 		for _, rel := range rels {
 			rs, still := after[rel]
 			if !still || !inScope(pol, rel) || len(rs) == 0 {
+				continue
+			}
+			if w.failedMeta(rel) {
+				// the run could not learn this file's time range: keeping it
+				// is the only safe answer, whatever the run then reports
 				continue
 			}
 			old := true
@@ -705,6 +729,24 @@ func (w *c11world) realRun(op *C11Op, pol C11Policy, pid int64, ensure func(), o
 			})
 		}
 	}
+	metaFailed := map[string]bool{} // files whose metadata read was failed in this run
+	if fault != nil && (fault.Kind == "meta-err" || fault.Kind == "meta-err-rest") {
+		seen := 0
+		api.SimHook_RetentionFileMeta = func(h *api.RetentionHandler, ctx context.Context, filePath string) (time.Time, int64, error) {
+			seen++
+			if seen-1 == fault.K || (fault.Kind == "meta-err-rest" && seen-1 > fault.K) {
+				faultFired = "metadata-read-error"
+				metaFailed[filePath] = true
+				simrt.Event("META-READ-FAIL #%d %s", seen-1, strings.TrimPrefix(filePath, pd.root))
+				if fault.Kind == "meta-err-rest" {
+					return time.Time{}, 0, context.DeadlineExceeded
+				}
+				return time.Time{}, 0, errors.New("IO Error: could not read parquet footer (injected)")
+			}
+			return h.VerifRealFileMeta(ctx, filePath)
+		}
+		defer func() { api.SimHook_RetentionFileMeta = nil }()
+	}
 	var side *simrt.Task
 	switch with {
 	case "compact":
@@ -778,7 +820,9 @@ func (w *c11world) realRun(op *C11Op, pol C11Policy, pid int64, ensure func(), o
 	if with != "" {
 		what += " concurrent with " + with
 	}
+	w.metaFailed = metaFailed
 	w.judgeReal(pol, before, after, cutoff, success, faultFired, what)
+	w.metaFailed = nil
 	simrt.Event("REAL policy=%d status=%d finished=%v fault=%s", op.Policy, st, finished, faultFired)
 	_ = onTime
 	return died
